@@ -66,7 +66,9 @@ def run_session(case):
     scr_id = {}                 # id(UIScreen) -> screen id
     ih_id = {}                  # id(InputHandler) -> n
     lines = list(typed)
-    ctl = dict(reader=None, line=None, killed=False)
+    ctl = dict(reader=None, line=None, killed=False, typeahead=False, ta_wait=False, ta_pending=False)
+    ta_done = threading.Event()
+    hobj = {}                   # the application's own InputHandler objects (ops 20 / 21)
     line_ev = threading.Event()
     reader_ready = threading.Event()
     main_thread = threading.current_thread()
@@ -167,6 +169,17 @@ def run_session(case):
 
         def enqueue_signal(self, signal):
             if threading.current_thread() is not main_thread:
+                if ctl["ta_pending"]:
+                    # type-ahead (op 19): the reader thread got its line at once; its submission lands while the loop
+                    # thread is still inside start_input_thread (which waits for it): recorded like any enqueue_signal
+                    ctl["ta_pending"] = False
+                    try:
+                        sid = register(signal)
+                        if self._force_quit:
+                            log.append([1, sid])
+                        return super().enqueue_signal(signal)
+                    finally:
+                        ta_done.set()
                 sid = register(signal)
                 # the reader thread's submission: it arrives while the loop thread waits (EExt follows ESigNew)
                 log.append([17, sid])
@@ -598,6 +611,20 @@ def run_session(case):
                 screens[c[1]].redraw()
             elif op == 18:
                 screens[c[1]].close()
+            elif op == 19:
+                ctl["typeahead"] = bool(c[1])
+            elif op == 20:
+                h = hobj.get(c[1])
+                if h is None:
+                    h = hobj[c[1]] = IH.InputHandler()
+                h.skip_concurrency_check = bool(c[2])
+                h.get_input("value: ")
+            elif op == 21:
+                h = hobj.get(c[1])
+                if h is not None:
+                    h.wait_on_input()
+                    v = h.value
+                    U(20, [c[1], ih_id[id(h)], 1 if h.input_successful() else 0, 0 if v is None else 1], v or "")
             else:
                 raise AssertionError(op)
 
@@ -628,6 +655,15 @@ def run_session(case):
     def fake_get_input():
         req = ctl["starting"]
         U(5, [ih_id[id(req.source)], 0])
+        if ctl["typeahead"] and lines:
+            # the user has typed ahead: the line is there at once
+            l = lines.pop(0)
+            ctl["ta_pending"] = True; ctl["ta_wait"] = True
+            ta_done.clear()
+            reader_ready.set()
+            if l == []:
+                raise EOFError()
+            return "".join(chr(c) for c in l[0])
         ctl["reader"] = req
         reader_ready.set()
         line_ev.wait(30); line_ev.clear()
@@ -643,15 +679,17 @@ def run_session(case):
         reader_ready.clear()
         orig_start_thread(self)
         reader_ready.wait(10)
+        if ctl["ta_wait"]:
+            ctl["ta_wait"] = False
+            if not ta_done.wait(20):
+                raise Stuck()
 
     def start_input(self, input_thread_object, concurrent_check=True):
         try:
             return orig_start_input(self, input_thread_object, concurrent_check)
         except KeyError:
             ids = [ih_id[id(t.source)] for t in self._input_stack]
-            me = ih_id[id(input_thread_object.source)]
-            if me not in ids:
-                ids.append(me)
+            ids.append(ih_id[id(input_thread_object.source)])     # the refused request was popped before the raise
             U(11, ids)
             raise
 
